@@ -544,7 +544,11 @@ func (gen *Generator) GenerateAssert(args []Sexp) error {
 	if len(args) != 1 {
 		return WrongNargs
 	}
+	// the asserted expression is not in tail position: its value is tested afterwards.
+	oldtail := gen.Tail
+	gen.Tail = false
 	err := gen.Generate(args[0])
+	gen.Tail = oldtail
 	if err != nil {
 		return err
 	}
@@ -728,7 +732,18 @@ func (gen *Generator) GenerateCallBySymbol(sym *SexpSymbol, args []Sexp, orig Se
 
 	oldtail := gen.Tail
 	gen.Tail = false
-	if oldtail && sym.name == gen.funcname {
+	// a self call with the wrong number of arguments is left to the
+	// ordinary call path, which reports the arity error; jumping would
+	// bind the parameters to the wrong operands.
+	selfArityOK := true
+	if known := gen.LookupKnownFunction(sym); oldtail && sym.name == gen.funcname && known != nil {
+		if known.varargs {
+			selfArityOK = len(args) >= known.nargs
+		} else {
+			selfArityOK = len(args) == known.nargs
+		}
+	}
+	if oldtail && sym.name == gen.funcname && selfArityOK {
 		err := gen.GenerateCallArgsForFunction(gen.LookupKnownFunction(sym), args)
 		if err != nil {
 			return err
@@ -883,7 +898,12 @@ func (gen *Generator) GenerateCall(expr *SexpPair) error {
 }
 
 func (gen *Generator) GenerateArray(arr *SexpArray) error {
+	// the elements of an array literal are not in tail position:
+	// the array is built after them.
+	oldtail := gen.Tail
+	gen.Tail = false
 	err := gen.GenerateAll(arr.Val)
+	gen.Tail = oldtail
 	if err != nil {
 		return err
 	}
@@ -1258,21 +1278,24 @@ func (gen *Generator) GenerateSyntaxQuote(args []Sexp) error {
 	}
 	arg := args[0]
 
+	// unquoted expressions inside a template are not in tail
+	// position: the template is assembled after them.
+	oldtail := gen.Tail
+	gen.Tail = false
+	defer func() { gen.Tail = oldtail }()
+
 	// need to handle arrays, since they can have unquotes
 	// in them too.
 	switch aaa := arg.(type) {
 	case *SexpArray:
-		gen.generateSyntaxQuoteArray(aaa)
-		return nil
+		return gen.generateSyntaxQuoteArray(aaa)
 	case *SexpPair:
 		if !IsList(arg) {
 			break
 		}
-		gen.generateSyntaxQuoteList(arg)
-		return nil
+		return gen.generateSyntaxQuoteList(arg)
 	case *SexpHash:
-		gen.generateSyntaxQuoteHash(arg)
-		return nil
+		return gen.generateSyntaxQuoteHash(arg)
 	}
 	gen.AddInstruction(PushInstr{arg})
 	return nil
@@ -1655,6 +1678,11 @@ func (gen *Generator) GenerateReturn(xs []Sexp) error {
 
 	if n > 1 {
 		gen.AddInstruction(PushInstr{SexpMarker})
+		// several results are collected into one array afterwards,
+		// so none of them is in tail position.
+		oldtail := gen.Tail
+		gen.Tail = false
+		defer func() { gen.Tail = oldtail }()
 	}
 	for i := range xs {
 		Q("return calling Generate on xs[i=%v]=%v", i, xs[i].SexpString(nil))
